@@ -214,6 +214,12 @@ def fault_programs(dev):
     prog("aspirate-underflow-2nd", [warm, {"op": "aspirate", "lw": P, "wells": L([(0, 0), (0, 1)]), "vols": L([2, 3]), "label": "a"}])
     prog("dispense-overflow-2nd", [warm, {"op": "dispense", "lw": P, "wells": L([(0, 1), (1, 2)]), "vols": L([2, 2]), "label": "d"}])
     prog("aspirate-oversized-2nd", [warm, {"op": "aspirate", "lw": T, "wells": L([(0, 0), (1, 0)]), "vols": L([3, 7]), "label": "a"}], wlmax=5)
+    # one well with two volumes is not a valid call; if it were taken, records and book-keeping would part and a later step
+    # that the twin accepts would overflow in the replay
+    prog("one-well-two-volumes", [warm, {"op": "aspirate", "lw": P, "wells": S((0, 0)), "vols": L([2, 2]), "label": "a"},
+                                  {"op": "dispense", "lw": P, "wells": L([(0, 0)]), "vols": S(7), "label": "6 + 7 > 10"},
+                                  {"op": "dispense", "lw": P, "wells": S((0, 1)), "vols": L([3, 3]), "label": "d"},
+                                  {"op": "aspirate", "lw": P, "wells": L([(0, 1)]), "vols": S(8), "label": "3 + 3 - 8 < 1"}], wlmax=10)
     prog("dispense-oversized", [warm, {"op": "dispense", "lw": T, "wells": L([(0, 0)]), "vols": S(6), "label": None}], wlmax=5)
     # large vessels: a limit must not be softened by a relative tolerance
     big = [gen.mk_plate("waste", 1, 2, 100000, 25000000, [24999000, 100500]), gen.mk_trough("res", 8, 1, 1000000, 250000000, [249999990])]
